@@ -41,6 +41,7 @@ def build_transparent(r, name, level):
     items = []   # (variant source lines, ident, kind, field name, inner key) for transparent; plain ones too
     lines = []
     tv = []
+    have_default = False
     for i in range(n):
         key = r.choice(ok)
         if r.random() < 0.5:
@@ -51,6 +52,10 @@ def build_transparent(r, name, level):
             decl = "%s { %s: %s }" % (idents[i], fname, INNERS[key][0])
         attr = r.choice(["#[strum(transparent)]", "#[strum(transparent)]", "#[strum(transparent, serialize = \"ignored\")]",
                          "#[strum(transparent, to_string = \"ignored-ts\")]", "#[strum(to_string = \"ts\")]\n    #[strum(transparent)]"])
+        if not have_default and r.random() < 0.2:
+            # `default` next to `transparent` on the same variant: both ask for the inner value, transparent still applies
+            have_default = True
+            attr = r.choice(["#[strum(transparent, default)]", "#[strum(default, transparent)]", "#[strum(default)]\n    #[strum(transparent)]"])
         lines.append("    %s\n    %s," % (attr, decl))
         tv.append((idents[i], fname, key))
     lines.insert(r.randint(0, len(lines)), "    %s," % idents[n])
